@@ -5,6 +5,7 @@ import re
 from ..astutil import up, chain, calls, is_call_to, walk_local, paths, root_name, stores, const
 from ..rules import where, path_actions, pickle_state_agreement
 from ..loader import AnalysisError
+from ..staterules import state_roundtrip
 from . import common
 
 EXPLANATION = (
@@ -287,9 +288,9 @@ def run(ctx):
     check_fit_loop(ctx)
     check_write_meta(ctx)
     repo = ctx.repo
-    pickle_state_agreement(ctx, repo.cls('source.source', 'Source'))
-    pickle_state_agreement(ctx, repo.cls('fit_info', 'FitInfo'), exclude=('meta',))
-    pickle_state_agreement(ctx, repo.cls('extinction.extinction', 'Extinction'))
+    state_roundtrip(ctx, repo.cls('source.source', 'Source'))
+    state_roundtrip(ctx, repo.cls('fit_info', 'FitInfo'), exclude=('meta',))
+    state_roundtrip(ctx, repo.cls('extinction.extinction', 'Extinction'))
     check_ctor(ctx)
     common.check_ownership(ctx)
 
@@ -298,7 +299,9 @@ FT = 'sedfitter/fit.py'
 FI = 'sedfitter/fit_info.py'
 SO = 'sedfitter/source/source.py'
 WP = 'sedfitter/write_parameters.py'
+EXF = 'sedfitter/extinction/extinction.py'
 MUST_FIRE = [
+    ('extinction state as bare numbers, default units re-attached without conversion', [(EXF, "            'wav': self.wav,\n            'chi': self.chi,\n", "            'wav': self.wav.value,\n            'chi': self.chi.value,\n"), (EXF, "        self.wav = d['wav']\n        self.chi = d['chi']", "        self.wav = d['wav'] * u.micron\n        self.chi = d['chi'] * u.cm ** 2 / u.g")]),
     ('>= -> >', [(FT, "if s.n_data >= n_data_min:", "if s.n_data > n_data_min:")]),
     ('write before keep', [(FT, "            info.keep(output_format)\n\n            fout.write(info)\n", "            fout.write(info)\n\n            info.keep(output_format)\n")]),
     ('metadata dumped every time', [(FI, "            self._first_meta = info.meta\n        else:", "        else:")]),
@@ -322,6 +325,7 @@ MUST_FIRE = [
     ('loop ends at the first ineligible source', [(FT, "            fout.write(info)\n\n            t.display()\n", "            fout.write(info)\n\n            t.display()\n\n        else:\n            break\n")]),
 ]
 MUST_SILENT = [
+    ('extinction state as bare numbers in fixed units, converted when saved', [(EXF, "            'wav': self.wav,\n            'chi': self.chi,\n", "            'wav': self.wav.to(u.micron).value,\n            'chi': self.chi.to(u.cm ** 2 / u.g).value,\n"), (EXF, "        self.wav = d['wav']\n        self.chi = d['chi']", "        self.wav = d['wav'] * u.micron\n        self.chi = d['chi'] * u.cm ** 2 / u.g")]),
     ('eligibility written the other way round', [(FT, "if s.n_data >= n_data_min:", "if n_data_min <= s.n_data:")]),
     ('early continue for ineligible sources', [(FT, "        if s.n_data >= n_data_min:\n\n            info = fitter.fit(s)\n\n            if not output_convolved:\n                info.model_fluxes = None\n\n            info.keep(output_format)\n\n            fout.write(info)\n\n            t.display()\n",
                                                 "        if s.n_data < n_data_min:\n            continue\n\n        info = fitter.fit(s)\n\n        if not output_convolved:\n            info.model_fluxes = None\n\n        info.keep(output_format)\n\n        fout.write(info)\n\n        t.display()\n")]),
